@@ -10,10 +10,10 @@ def state_is_trace_one_rtol : Rat := (mkRat (1) 100000)
 /-- quara/objects/povm.py:601 `np.allclose(sum_matrix, identity, atol=atol)`  (rtol keyword absent: default) -/
 def povm_is_identity_sum_rtol : Rat := (mkRat (1) 100000)
 
-/-- quara/objects/gate.py:581 `np.allclose(hs[0], expected_row, atol=atol, rtol=0.0)` -/
+/-- quara/objects/gate.py:585 `np.allclose(hs[0], expected_row, atol=atol, rtol=0.0)` -/
 def gate_is_tp_row_rtol : Rat := (0 : Rat)
 
-/-- quara/objects/gate.py:600 `np.isclose(trace_after_mapped, trace_before_mapped, atol=atol, rtol=0.0)` -/
+/-- quara/objects/gate.py:604 `np.isclose(trace_after_mapped, trace_before_mapped, atol=atol, rtol=0.0)` -/
 def gate_is_tp_trace_rtol : Rat := (0 : Rat)
 
 /-- quara/utils/matrix_util.py:101 `allclose(matrix, adjoint, atol=atol, rtol=0.0)` -/
@@ -56,7 +56,7 @@ def elemental_flag (is_normal is_orthogonal is_hermitian is_0thpropI : Bool) : B
 def composite_flag (flags : List Bool) : Bool :=
   flags.all id
 
-/-- quara/objects/gate.py:577 gate.is_tp takes the first-row test exactly when this is true -/
+/-- quara/objects/gate.py:581 gate.is_tp takes the first-row test exactly when this is true -/
 def is_tp_first_row_branch (c_sys_flag : Bool) : Bool :=
   c_sys_flag
 
